@@ -175,7 +175,7 @@ theorem drainAll_sent (cfg : Cfg) : ∀ (l : List Nat) (st : State), sentOf (dra
 /-! ### the flush loops -/
 
 /-- `flushListener`'s loop pops a prefix of the queue; what it sends is (in order) a sub-list of that prefix, from this listener -/
-theorem flushLoopL_shape (lid : Nat) (v6 : Bool) : ∀ (q : List Item) (as : List Ans),
+theorem flushLoopL_shape (lid : Nat) (v6 : Nat → Bool) : ∀ (q : List Item) (as : List Ans),
     ∃ popped, q = popped ++ (flushLoopL lid v6 q as).1 ∧ (sentOf (flushLoopL lid v6 q as).2).map (·.2) <+ popped ∧
       ∀ x ∈ sentOf (flushLoopL lid v6 q as).2, x.1 = .lst lid
   | [], _ => ⟨[], by simp [flushLoopL]⟩
@@ -195,7 +195,7 @@ theorem flushLoopL_shape (lid : Nat) (v6 : Bool) : ∀ (q : List Item) (as : Lis
       · simp only [sentOf]; exact List.Sublist.cons _ h2
       · intro x hx; simp only [sentOf] at hx; exact h3 x hx
 
-theorem flushLoopC_shape (sid : Nat) (v6 : Bool) : ∀ (q : List Item) (as : List Ans),
+theorem flushLoopC_shape (sid : Nat) (v6 : Nat → Bool) : ∀ (q : List Item) (as : List Ans),
     ∃ popped, q = popped ++ (flushLoopC sid v6 q as).1 ∧ (sentOf (flushLoopC sid v6 q as).2.1).map (·.2) <+ popped ∧
       ∀ x ∈ sentOf (flushLoopC sid v6 q as).2.1, x.1 = .cli sid
   | [], _ => ⟨[], by simp [flushLoopC]⟩
@@ -522,6 +522,17 @@ theorem ginv_step (cfg : Cfg) (h : List In) (i : In) (g : GInv cfg h (pending (r
       · split
         · exact quiet _ _ (clientRecvMany_qle cfg sid dgs st).1 (clientRecvMany_qle cfg sid dgs st).2
         · exact quiet _ _ (QLe.refl st) rfl
+  | recvKeyFail lid n =>
+    simp only [step]; split
+    · exact quiet _ _ (QLe.refl st) rfl
+    · have hrep : ∀ k, sentOf (List.replicate k Out.error) = [] := by
+        intro k; induction k with
+        | zero => rfl
+        | succ j ih => simp [List.replicate_succ, sentOf, ih]
+      split
+      · exact quiet _ _ (QLe.refl st) (hrep n)
+      · exact quiet _ _ (QLe.refl st) rfl
+  | viaKeyFail lid => exact quiet _ _ ⟨fun _ => Sublist.refl _, fun _ => Sublist.refl _⟩ rfl
   | connect a v6 =>
     exact quiet _ _ (qle_sess st st.nextSid _ _ _ _ (by exact nil_sublist _)) rfl
   | via lid a v6 =>
@@ -553,8 +564,8 @@ theorem ginv_step (cfg : Cfg) (h : List In) (i : In) (g : GInv cfg h (pending (r
     | some l =>
       dsimp only
       split
-      · obtain ⟨popped, h1, h2, h3⟩ := flushLoopL_shape lid l.v6 l.wq as
-        refine g.flush _ (.lst lid) popped (flushLoopL lid l.v6 l.wq as).1 _ ?_ ?_ ?_ h2 h3
+      · obtain ⟨popped, h1, h2, h3⟩ := flushLoopL_shape lid (overV6 cfg l.v6) l.wq as
+        refine g.flush _ (.lst lid) popped (flushLoopL lid (overV6 cfg l.v6) l.wq as).1 _ ?_ ?_ ?_ h2 h3
         · rw [pending_lst_of st lid l hl]; exact h1
         · rw [pending_set_lst]; simp
         · intro q hq; rw [pending_set_lst]; simp [hq]
@@ -570,17 +581,17 @@ theorem ginv_step (cfg : Cfg) (h : List In) (i : In) (g : GInv cfg h (pending (r
       | client =>
         dsimp only
         split
-        · obtain ⟨popped, h1, h2, h3⟩ := flushLoopC_shape sid s.v6 s.wq as
+        · obtain ⟨popped, h1, h2, h3⟩ := flushLoopC_shape sid (overV6 cfg s.v6) s.wq as
           split
           · rw [sentOf_append, closeNow_sent, List.append_nil]
-            refine g.flush _ (.cli sid) popped (flushLoopC sid s.v6 s.wq as).1 _ ?_ ?_ ?_ h2 h3
+            refine g.flush _ (.cli sid) popped (flushLoopC sid (overV6 cfg s.v6) s.wq as).1 _ ?_ ?_ ?_ h2 h3
             · rw [pending_cli_of st sid s hs]; exact h1
             · refine ((closeNow_qle cfg _ sid _).pending _).trans ?_
               rw [pending_set_sess]; simp
             · intro q hq
               refine ((closeNow_qle cfg _ sid _).pending _).trans ?_
               rw [pending_set_sess]; simp [hq]
-          · refine g.flush _ (.cli sid) popped (flushLoopC sid s.v6 s.wq as).1 _ ?_ ?_ ?_ h2 h3
+          · refine g.flush _ (.cli sid) popped (flushLoopC sid (overV6 cfg s.v6) s.wq as).1 _ ?_ ?_ ?_ h2 h3
             · rw [pending_cli_of st sid s hs]; exact h1
             · rw [pending_set_sess]; simp
             · intro q hq; rw [pending_set_sess]; simp [hq]
